@@ -758,6 +758,8 @@ class FunctionBody:
         self.local_types = {}
         self.ind = 1
         self.no_hoist = 0
+        self.subst = {}          # inlining of trivial accessors: ParmVarDecl id -> C text of the actual argument
+        self.this_text = 'this_'
 
     # -- helpers
     def qt(self, n):
@@ -998,8 +1000,24 @@ class FunctionBody:
         ct = self.tr.ctype(t, self.tu, d)
         name = d['name']
         inner = [c for c in d.get('inner', []) if c.get('kind') and not c['kind'].endswith('Comment')]
-        if d.get('storageClass') == 'static' and not (ct.const or d.get('constexpr')):
-            brk('function-local static variable', d)
+        if (d.get('storageClass') == 'static' or d.get('tls')) and not (ct.const or d.get('constexpr')):
+            # function-local static / thread_local state: becomes a C global of the translation (writing it is then a
+            # violation of the function's frame condition, which is what it is for a query function)
+            gname = '%s__static_%s' % (self.info['cname'], name)
+            if gname not in self.tr.global_consts:
+                saved, self.pre = self.pre, None
+                try:
+                    iv = self.expr(inner[0]) if inner else self.tr.zero(ct)
+                except ExtractionBreak:
+                    iv = None
+                self.pre = saved
+                if iv is None or not re.match(r'^[-+0-9a-fA-FxXpP.() /*A-Z_]*$', iv):
+                    self.tr.global_consts[gname] = '%s %s; /* function-local static of %s (dynamic initialiser not modelled) */' % (ct.c, gname, self.info['cname'])
+                else:
+                    self.tr.global_consts[gname] = '%s %s = %s; /* function-local static of %s */' % (ct.c, gname, iv, self.info['cname'])
+                self.tr.dropped.append('function-local static %s of %s becomes the C global %s' % (name, self.info['cname'], gname))
+            self.subst[d['id']] = gname
+            return []
         if ct.ref:
             self.refvars.add(d['id'])
             pre, v = self.with_pre(lambda: [self.addr_of(inner[0])])
@@ -1245,7 +1263,7 @@ class FunctionBody:
         return self.expr(n['inner'][0])
 
     def e_CXXThisExpr(self, n):
-        return 'this_'
+        return self.this_text
 
     def e_CXXDefaultArgExpr(self, n):
         brk('default argument without callee context', n)
@@ -1260,6 +1278,8 @@ class FunctionBody:
         rd = n['referencedDecl']
         k = rd['kind']
         if k in ('ParmVarDecl', 'VarDecl', 'BindingDecl'):
+            if rd['id'] in self.subst:
+                return self.subst[rd['id']]
             if rd['id'] in self.refvars:
                 return '(*%s)' % rd['name']
             decl = self.tu.by_id.get(rd['id'])
@@ -1314,8 +1334,10 @@ class FunctionBody:
         name = n['name']
         b = self.expr(base)
         if n.get('isArrow'):
-            if b == 'this_':
-                self.note_field(base, name)
+            if b.startswith('&') and self._balanced(b[1:]) and re.match(r'^&[A-Za-z_][\w.\[\]>()*-]*$', b) and '->' not in b.split('.')[0][1:] and False:
+                return '%s.%s' % (b[1:], name)
+            if b.startswith('(&') and b.endswith(')') and self._balanced(b[2:-1]):
+                return '%s.%s' % (b[2:-1], name)
             return '%s->%s' % (b, name)
         return '%s.%s' % (b, name)
 
@@ -1584,9 +1606,70 @@ class FunctionBody:
                 out.append(self.expr(a))
         return out
 
+    def trivial_accessor(self, info):
+        """A function whose body is one return statement (plus empty debug-assert blocks) is inlined at the call."""
+        if 'accessor' in info:
+            return info['accessor']
+        info['accessor'] = None
+        if info.get('stub') or info.get('ctor') or info['cname'] in self.tr.cfg.get('no_inline', []) or \
+                info['cname'] in self.tr.cfg.get('enforce_names', []):
+            return None
+        body = [c for c in info['node'].get('inner', []) if c.get('kind') == 'CompoundStmt']
+        if not body:
+            return None
+
+        def empty(st):
+            if st.get('kind') == 'NullStmt':
+                return True
+            if st.get('kind') == 'CompoundStmt':
+                return all(empty(x) for x in st.get('inner', []) or [])
+            if st.get('kind') == 'DoStmt':
+                b_, c_ = st['inner']
+                return c_.get('kind') == 'CXXBoolLiteralExpr' and not c_.get('value') and empty(b_)
+            return False
+        stmts = [st for st in body[0].get('inner', []) or [] if not empty(st)]
+        if len(stmts) != 1 or stmts[0].get('kind') != 'ReturnStmt' or not stmts[0].get('inner'):
+            return None
+        if self.contains_kind(stmts[0], ('CXXThrowExpr', 'LambdaExpr')):
+            return None
+        info['accessor'] = stmts[0]['inner'][0]
+        return info['accessor']
+
+    def inline_accessor(self, info, obj_addr, args, n):
+        ret = self.trivial_accessor(info)
+        if ret is None:
+            return None
+        d = info['node']
+        params = [c for c in d.get('inner', []) if c.get('kind') == 'ParmVarDecl']
+        if len(args) != len(params) or any(a.get('kind') == 'CXXDefaultArgExpr' for a in args):
+            return None
+        sub = FunctionBody(self.tr, info)
+        sub.pre = self.pre
+        sub.no_hoist = self.no_hoist
+        sub.calls = self.calls
+        sub.refvars = set()
+        for p_, a in zip(params, args):
+            pt = self.tr.ctype(p_['type'].get('desugaredQualType') or p_['type']['qualType'], info['tu'], p_)
+            txt = self.expr(a)
+            if re.search(r'(\+\+|--|[^=!<>]=[^=])', txt):
+                return None
+            sub.subst[p_['id']] = '(' + txt + ')'
+        if obj_addr is not None:
+            sub.this_text = '(' + obj_addr + ')' if not re.match(r'^\w+$', obj_addr) else obj_addr
+        try:
+            if info.get('ret_ref'):
+                return sub.expr(sub.strip(ret))      # the returned lvalue itself
+            return '(' + sub.expr(ret) + ')'
+        finally:
+            self.throws = self.throws or sub.throws
+
     def call_user(self, cn, obj_addr, args, decl, n):
         info = self.tr.funcs[cn]
         d = info['node']
+        if not self.tr.cfg.get('no_accessor_inlining'):
+            inl = self.inline_accessor(info, obj_addr, args, n)
+            if inl is not None:
+                return inl
         a = self.args_of(d, args, n)
         if obj_addr is not None:
             a = [obj_addr] + a
